@@ -87,6 +87,13 @@ def run(ctx):
     ]
     ctx.not_covered += ["byte identity across PYTHONHASHSEED values beyond the absence of set iteration / hash() use",
                         "pre-existing files in the output directory (open(..., 'w') targets only; nothing reads the directory)"]
+    import json as _json
+    rc = ctx.monitor("m_corpus_rel", "psearch", 400, ctx.seed, 16, _json.dumps({"rel": ["history"]}))
+    ctx.bounded.append({"monitor": "m_corpus_rel", "inputs_tried": rc["tried"], "violation": rc["violation"],
+                        "kind": "every upstream regression input generated after classes / struct / templates / strings in the same "
+                                "process equals the same input generated by a fresh interpreter"})
+    if rc["violation"]:
+        ctx.violation("bounded/m_corpus_rel", {"inputs": rc["inputs"], "observed": rc["violation"]}, True)
     if ctx.tier == "thorough":
         r = ctx.monitor("m_purity", "search", 200, ctx.seed)
         ctx.bounded.append({"monitor": "m_purity", "inputs_tried": r["tried"], "violation": r["violation"],
